@@ -3,6 +3,7 @@ package rules
 import (
 	"go/token"
 	"go/types"
+	"sort"
 	"strings"
 
 	"golang.org/x/tools/go/ssa"
@@ -266,6 +267,27 @@ func checkC11(c *Ctx) {
 	for _, e := range m.effects {
 		if (e.op == "Create" || e.op == "WriteFile" || e.op == "OpenFile" || e.op == "Truncate") && e.class[0] == "index" {
 			inPlace = true
+		}
+	}
+	// the live index is unlinked only as the first step of removing the whole mailbox: an unlink
+	// that is followed by something else (the rename that installs the new index, say) leaves a
+	// window in which a directory full of raw files has no index, and a mailbox without index
+	// reads as empty
+	for _, e := range m.effects {
+		if e.op != "Remove" || e.class[0] != "index" {
+			continue
+		}
+		cons := "unlink@" + shortFn(e.fn)
+		followed := false
+		for _, e2 := range m.effects {
+			if e2.op == "RemoveAll" && e2.class[0] == "dir" && e2.fn == e.fn && eng.Dominates(e.call, e2.call) {
+				followed = true
+			}
+		}
+		if followed {
+			r.Ok("C11/ATOMIC/index", cons, p.InstrPos(e.call), "the index is unlinked only ahead of removing the mailbox directory")
+		} else {
+			r.Bad("C11/ATOMIC/index", cons, p.InstrPos(e.call), "the live index is unlinked at %s without the mailbox directory being removed next: a stop between this unlink and whatever replaces the index leaves every raw file in place and no index, and the mailbox reads as empty after the restart (the next delivery makes the loss permanent)", p.InstrPos(e.call))
 		}
 	}
 	if len(renames) == 0 {
@@ -990,6 +1012,48 @@ func (c *Ctx) c11Remove(m *fsModel) {
 
 func (c *Ctx) c11Purge(m *fsModel) {
 	r, p := c.R, c.P
+	// a purge is one step: the index goes (with the mailbox) once. Removing the messages one
+	// by one commits each removal separately, and a stop in between leaves a mailbox that was
+	// purged neither completely nor not at all
+	if purge := p.Method("pkg/storage/file", "Store", "PurgeMessages"); purge != nil {
+		r.Rule("C11/ATOMIC/purge-one-step", "in file.Store.PurgeMessages (and what it runs) no call that updates or removes the index sits in a loop")
+		internals := map[*ssa.Function]bool{}
+		for g := range p.SyncReach(m.writeIdx) {
+			internals[g] = true
+		}
+		for g := range p.SyncReach(m.removeDir) {
+			internals[g] = true
+		}
+		var inLoop []string
+		nCommit := 0
+		for g := range p.SyncReach(purge) {
+			if internals[g] || eng.FuncPkgPath(g) != eng.FuncPkgPath(purge) {
+				continue
+			}
+			g := g
+			eng.EachInstr(g, func(in ssa.Instruction) {
+				call, ok := in.(*ssa.Call)
+				if !ok {
+					return
+				}
+				t := eng.StaticCallee(call.Common())
+				if t == nil || !(t == m.writeIdx || t == m.removeDir || reachesSync(t, m.writeIdx) || reachesSync(t, m.removeDir)) {
+					return
+				}
+				nCommit++
+				if len(loopHeaders(call.Block())) > 0 {
+					inLoop = append(inLoop, eng.CalleeName(call.Common())+" at "+p.InstrPos(in))
+				}
+			})
+		}
+		sort.Strings(inLoop)
+		if len(inLoop) > 0 {
+			r.Bad("C11/ATOMIC/purge-one-step", shortFn(purge), p.Pos(purge.Pos()), "the purge commits in several steps (%s, inside a loop): a stop part-way leaves some of the messages, so the purge has happened neither completely nor not at all", strings.Join(inLoop, "; "))
+		} else {
+			r.Ok("C11/ATOMIC/purge-one-step", shortFn(purge), p.Pos(purge.Pos()), "%d index-committing call(s), none in a loop", nCommit)
+		}
+		r.Floor("C11/ATOMIC/purge-one-step", "index-committing calls in the purge", nCommit, 1)
+	}
 	n := 0
 	for _, e := range m.effects {
 		if e.op != "RemoveAll" {
